@@ -1,0 +1,21 @@
+//go:build verif
+
+package reactor
+
+// VerifTokensInUse returns the number of tokens currently taken from the pool (-1 if no reactor).
+func VerifTokensInUse() int {
+	r := globalReactor
+	if r == nil {
+		return -1
+	}
+	return len(r.tokenPool)
+}
+
+// VerifInputLen returns the number of items buffered in the reactor's input channel.
+func VerifInputLen() int {
+	r := globalReactor
+	if r == nil {
+		return -1
+	}
+	return len(r.input)
+}
